@@ -717,3 +717,70 @@ def run(ctx: Context):
                     r.violation(fu, fu.loc(t.ast), "a share skipped because of the per-server limit is not reported as "
                                 "want_more_diversity: _do_loop then waits instead of raising the limit (path: %s)" % w.brief(), w)
                     break
+
+
+def _rule_alive_filter(ctx: Context):
+    """C03.6: a share that has died never reports back (Share.loop returns at once when not alive), so a
+    fetcher that is handed a dead share keeps it in its active map and waits forever.  Every share list
+    given to a *new* SegmentFetcher must therefore be filtered by is_alive()."""
+    idx = ctx.idx
+    with ctx.rule("C03.6", "R3", "_start_new_segment hands the new SegmentFetcher only shares that are alive "
+                  "(a dead share never answers get_block)", expected=2) as r:
+        fn = idx.func("immutable.downloader.node:DownloadNode._start_new_segment")
+        cfg = fn.cfg()
+        rd = C.reaching_defs(cfg)
+        adds = [n for n in cfg.stmt_nodes() if calls_at(n, "add_shares")]
+        if not adds:
+            raise AnchorVanished("_start_new_segment no longer calls add_shares on the new fetcher")
+        # premise: a dead share's loop returns without doing (or notifying) anything
+        sl0 = idx.func("immutable.downloader.share:Share.loop")
+        sn = FlowNorm(sl0)
+        silent_when_dead = False
+        for t in sl0.cfg().find(lambda x: x.kind == "test"):
+            for (d, lab) in sl0.cfg().succ[t.id]:
+                f = sn.edge_fact(t, lab)
+                if f and f[0] == "false" and f[1] == "self._alive":
+                    nxt = sl0.cfg().nodes[d]
+                    if is_return(nxt) or nxt.kind == "exit":
+                        silent_when_dead = True
+        if not silent_when_dead:
+            ctx.note("C03.6: Share.loop no longer returns silently for a dead share; the is_alive() filter is not required")
+            r.site(sl0, None, "premise absent: filter not required")
+            r.site(sl0, None, "premise absent")
+            return
+        for n in adds:
+            c = calls_at(n, "add_shares")[0]
+            r.site(fn, c, "add_shares")
+            a0 = arg(c, 0)
+            e = a0
+            if isinstance(a0, ast.Name):
+                ds = rd.get(n.id, {}).get(a0.id, frozenset())
+                vals = [assign_value(cfg.nodes[d], a0.id) for d in ds if d >= 0]
+                e = vals[0] if len(vals) == 1 else None
+            ok = False
+            if isinstance(e, (ast.ListComp, ast.GeneratorExp, ast.SetComp)) and len(e.generators) == 1:
+                g = e.generators[0]
+                tgt = attr_path(g.target)
+                ok = attr_path(e.elt) == tgt and any(
+                    N(fn).cmp(cond, True) == ("truth", "%s.is_alive()" % tgt, None) for cond in g.ifs)
+            elif isinstance(e, ast.Call) and call_tail(e) == "filter" and len(e.args) == 2:
+                f0 = e.args[0]
+                ok = isinstance(f0, ast.Lambda) and N(fn).cmp(f0.body, True) == ("truth", "%s.is_alive()" % f0.args.args[0].arg, None)
+            r.require(ok, fn, fn.loc(c), "the new fetcher is given %s, which is not filtered by is_alive(): a share that died "
+                      "during an earlier segment would be requested again and never answer, so the read hangs although "
+                      "k live shares exist" % src(fn, a0))
+        # the premise: a dead share's loop does nothing (so the filter is what keeps the fetcher from waiting on it)
+        sl = idx.func("immutable.downloader.share:Share.loop")
+        r.site(sl, None, "premise: Share.loop returns early when not alive")
+        ia = idx.func("immutable.downloader.share:Share.is_alive")
+        rets = [n for n in ia.cfg().find(is_return)]
+        r.require(bool(rets) and all("_alive" in ast.unparse(n.ast.value) for n in rets), ia, ia.loc(),
+                  "is_alive() no longer reports the _alive flag cleared by _fail()")
+
+
+_run_without_alive = run
+
+
+def run(ctx: Context):   # noqa: F811
+    _run_without_alive(ctx)
+    _rule_alive_filter(ctx)
